@@ -257,3 +257,31 @@ func genText(n int, seed uint64) gen.Recipe {
 func opsOneWriteFlushMid(n int) []gen.Op {
 	return []gen.Op{{K: "W", N: n / 2}, {K: "F"}, {K: "W", N: n - n/2}}
 }
+
+// smallStream returns the i-th of a fixed family of small valid streams.
+func smallStream(i int) StreamSpec {
+	var s StreamSpec
+	seed := uint64(i)
+	switch i % 4 {
+	case 0:
+		s = StreamSpec{Kind: "synth", Synth: &synth.Stream{Blocks: []synth.BlockSpec{
+			{Type: 2, N: 40 + i, Seed: seed, Alpha: 16, MatchPct: 30, Chain: (i * 13) % 101, ExtraLit: i % 7, RLE: i % 3, FreqSort: i%2 == 0},
+			{Type: 0, N: i % 20, Seed: seed},
+			{Type: 1, N: 30, Seed: seed, Alpha: 256, MatchPct: 50},
+		}}}
+	case 1:
+		s = StreamSpec{Kind: "synth", Synth: &synth.Stream{Blocks: []synth.BlockSpec{
+			{Type: 1, N: 10, Seed: seed, Alpha: 4},
+			{Type: 2, N: 100 + 3*i, Seed: seed, Alpha: 256, MatchPct: 10, Chain: 95, ExtraLit: 286, ExtraDist: 30, DistCode: 2, RLE: 2, PadLit: i % 5, FullHCLEN: true},
+		}}}
+	case 2:
+		r := genText(200+7*i, seed)
+		set := WSetting{Ctor: "new", Level: []int{1, 2, -2, 6}[(i/4)%4]}
+		s = StreamSpec{Kind: "std", Data: &r, Set: &set, Ops: opsOneWriteFlushMid(r.Len())}
+	default:
+		r := genText(150+11*i, seed)
+		set := WSetting{Ctor: []string{"new", "4k"}[(i/4)%2], Level: []int{1, 2, -2, -1}[(i/8)%4]}
+		s = StreamSpec{Kind: "fast", Data: &r, Set: &set, Ops: opsOneWriteFlushMid(r.Len())}
+	}
+	return s
+}
